@@ -66,7 +66,7 @@ func main() {
 	runner.Main(runner.Config{
 		ID:    "C18",
 		Level: "model_checking",
-		Rule:  "bounded exhaustive enumeration: signed size in {0,1,B-1,B,B+1,2B,2B+1 (thorough: +3B)} x written content = signed content with every assignment of {unchanged, first byte inverted, last byte inverted, replaced by the next signed block (full blocks only), replaced by its weak twin (same rolling checksum, other bytes)} to its blocks | truncated to every length of {0,1,B-1,B,B+1,2B,size-1} below the size | extended by {1,B-1,B,B+1} (thorough: every single-block alteration combined with every length change) ; plus a structured family (signed contents made of zero blocks and repeated blocks: Z.Z, A.A, A.A.A, Z.A, A.Z, with tails; every assignment of {unchanged, fresh random block, zero block, previous signed block} to the blocks) x slicing = every set of <=3 cuts at positions {1,B-1,B,B+1,2B-1,2B,len-1} inside the written range, plus uniform writes of 1, 4096, 32768 and B+1 bytes x mode {error, wound, wound through AggregateWounds}. Sub-check pool-bowl: the real pool bowl (Transpose, and its entry writer fed in 32KiB pieces) writing the same contents into a validating pool in error mode: refused iff some written block differs from or lies beyond the signed blocks. Each case drives the real ValidatingPool writer over verif/lib/mempool; after a failed Write no further Write is issued and the writer is closed, as a caller with a deferred Close does. Oracle by direct byte comparison per block. Non-trivial = the written content has at least one differing or surplus block and at least one boundary between two Write calls lies inside a block.",
+		Rule:  "bounded exhaustive enumeration: signed size in {0,1,B-1,B,B+1,2B,2B+1 (thorough: +3B)} x written content = signed content with every assignment of {unchanged, first byte inverted, last byte inverted, replaced by the next signed block (full blocks only), replaced by its weak twin (same rolling checksum, other bytes)} to its blocks | truncated to every length of {0,1,B-1,B,B+1,2B,size-1} below the size | extended by {1,B-1,B,B+1} (thorough: every single-block alteration combined with every length change) ; plus a structured family (signed contents made of zero blocks and repeated blocks: Z.Z, A.A, A.A.A, Z.A, A.Z, with tails; every assignment of {unchanged, fresh random block, zero block, previous signed block, weak twin} to the blocks) x slicing = every set of <=3 cuts at positions {1,B-1,B,B+1,2B-1,2B,len-1} inside the written range, plus uniform writes of 1, 4096, 32768 and B+1 bytes x mode {error, wound, wound through AggregateWounds}. Sub-check pool-bowl: the real pool bowl (Transpose, and its entry writer fed in 32KiB pieces) writing the same contents into a validating pool in error mode: refused iff some written block differs from or lies beyond the signed blocks. Each case drives the real ValidatingPool writer over verif/lib/mempool; after a failed Write no further Write is issued and the writer is closed, as a caller with a deferred Close does. Oracle by direct byte comparison per block. Non-trivial = the written content has at least one differing or surplus block and at least one boundary between two Write calls lies inside a block.",
 		Assumptions: []string{
 			"block contents are seeded pseudo-random (VERIF_SEED); altered bytes are bit inversions of single bytes, or whole signed blocks moved by one position",
 			"sequential part only: the goroutines of wound mode (relay, aggregator, a draining consumer) run under the Go scheduler; their interleavings are enumerated by the scheduler-controlled sub-check wound-interleavings (variant sched)",
@@ -597,6 +597,11 @@ func body(w *runner.W) {
 				letters := "-xz"
 				if j > 0 {
 					letters += "p"
+				}
+				if toks := strings.Split(spec, "."); j < len(toks) && toks[j][0] >= 'A' && toks[j][0] <= 'Y' && size-j*B >= 64 {
+					// weak twin of a block that the signed content repeats: same rolling
+					// checksum and length as its neighbour, other bytes
+					letters += "w"
 				}
 				for _, l := range letters {
 					gen(j+1, cur+string(l))
